@@ -298,6 +298,7 @@ func runC09(c *hlib.Ctx) {
 	}
 
 	runC09Maps2D(c)
+	runC09EdgeMaps(c)
 	runC09Mesh(c)
 	runC09Mesh2D(c)
 	runC09Fresh(c)
